@@ -1,5 +1,5 @@
-import CardVerif.Spec.BettingRules
-import CardVerif.Spec.GinRules
+import CardModel.Spec.BettingRules
+import CardModel.Spec.GinRules
 /-!
 # C16 — games are isolated
 
